@@ -233,8 +233,40 @@ def notifying_actions(h):
     return out
 
 
-def mon_c03(h):
+def while_registered(h):
+    """a direct subscriber whose registration (build time, or an add_subscriber call that returned)
+    precedes the invocation of an action's dispatch, and for which no unsubscribe was ever invoked,
+    is notified of that action if it notifies at all (judged once the store has stopped); the
+    executable reading of C03_whole_run_subscriber_in_every_snapshot / C09_notified_while_registered"""
     bad = []
+    if stop_ret(h) is None or not h.sc["reducers"] or "100@" in h.end.get("unfinished", "-"):
+        return bad
+    unsub = {int(e["f"][0].split(":")[1]) for e in h.ev if e["kind"] == "INV" and e["f"][0].startswith("un:")}
+    reg = {s: -1 for s, k, _ in h.sc["subs"] if k == "direct"}
+    for e in h.ev:
+        if e["kind"] == "RET" and e["f"][0].startswith("as:"):
+            reg.setdefault(int(e["f"][0].split(":")[1]), e["i"])
+    inv = {}
+    for e in h.ev:
+        if e["kind"] == "INV" and e["f"][0].startswith("d."):
+            inv.setdefault(int(e["f"][0].split(".")[2]), e["i"])
+    got = {}
+    for e in h.kinds("NOTIFY"):
+        if e["t"] == 100:
+            got.setdefault(int(e["f"][0]), set()).add(int(e["f"][2]))
+    for st, a in notifying_actions(h):
+        if a not in inv:
+            continue
+        for s, ri in reg.items():
+            if s not in unsub and ri < inv[a] and a not in got.get(s, set()):
+                bad.append(("notified-while-registered",
+                            "direct subscriber %d was registered before action %d was dispatched and never "
+                            "unsubscribed, but was not notified of it" % (s, a)))
+    return bad
+
+
+def mon_c03(h):
+    bad = while_registered(h)
     if not h.sc["reducers"]:
         return bad
     directs = [s for s, k, _ in h.sc["subs"] if k == "direct"]
@@ -335,7 +367,7 @@ def mon_c08(h):
 # ---- C09 -----------------------------------------------------------------------------------------
 def mon_c09(h):
     """returns (bad, known) - known: list of F3-class late notifications"""
-    bad, known = [], []
+    bad, known = while_registered(h), []
     ret_un = {}
     for e in h.ev:
         if e["kind"] == "RET" and e["f"][0].startswith("un:"):
@@ -686,9 +718,9 @@ def mon_c07(h):
         if a in last and s in directs and last[a] in directs and directs.index(s) < directs.index(last[a]):
             bad.append(("registration-order", "action %d: subscriber %d notified after %d" % (a, s, last[a])))
         last[a] = s
-    # reducers / middlewares registered before the dispatch are not left out (direct subscribers:
-    # mon_c09)
+    # reducers / middlewares / direct subscribers registered before the dispatch are not left out
     bad.extend(left_out(h))
+    bad.extend(while_registered(h))
     return bad
 
 
